@@ -63,6 +63,7 @@ def _base(rng, tier):
 
 
 ERRNOS = [EIO, ENOSPC, EPERM, EEXIST, 13, 18, 30]        # incl. EXDEV, EROFS
+LINK_ERRNOS = [EPERM, 95, 31, 18, 13, 2, EIO, ENOSPC, 30]   # EPERM ENOTSUP EMLINK EXDEV EACCES ENOENT EIO ENOSPC EROFS
 
 
 def generate(rng, tier, n):
@@ -102,6 +103,25 @@ def generate(rng, tier, n):
                              sweep="pair")
                     i += 1
                     yield c
+            continue
+        if mode < 0.095:
+            # the no-clobber publication under attack: overwrite=False, the destination appears while the body
+            # runs, and the publishing link fails with each errno a "fallback" might be tempted by
+            case["cfg"]["overwrite"] = False
+            case["init"].pop("dest", None)
+            if c04.is_partlink(case["init"]) or (case["init"].get("part") and not case["cfg"]["overwrite_part"]):
+                case["init"].pop("part", None)
+            case["init"].pop("partlink", None)
+            case["body_exc"] = False
+            pi = c04.publish_index(case)
+            ka = rng.randint(1, pi)
+            who = [rng.choice(["INTRUDER", "", "other writer"]), rng.choice([0o644, 0o600, 0o666])]
+            for errno in LINK_ERRNOS:
+                if i >= n:
+                    return
+                i += 1
+                yield dict(case, sched=sorted([[ka, "appear", who[0], who[1]], [pi, "fault", errno]],
+                                              key=lambda x: (x[0], x[1])), sweep="link-errno")
             continue
         sched = []
         nf = rng.choice([0, 1, 1, 2, 2, 2] + ([3, 3] if tier == "thorough" else []))
